@@ -9,7 +9,7 @@ PROP = "C12"
 LEVEL = "exploration"
 RULE = ("1..4 TPDOs with generated mappings (1..8 objects of 1/2/3/4 bytes, <= 8 bytes) x (type 254/255/1..240, inhibit, event time) x "
         "histories of value changes through CODictWr*/SDO/a received asynchronous RPDO mapped to the same objects, explicit triggers (PDO number, object), received SYNCs, ticks, NMT changes "
-        "(OP->PREOP->OP round trips, STOP, reset communication), event-time writes and COB-ID invalidate/re-validate while OPERATIONAL, leaving OPERATIONAL / invalidating while the timer event of a TPDO is served but not yet processed; the "
+        "(OP->PREOP->OP round trips, STOP, reset communication), event-time writes, COB-ID invalidate/re-validate and complete re-mapping sequences (fewer / more objects) while OPERATIONAL, leaving OPERATIONAL / invalidating while the timer event of a TPDO is served but not yet processed; the "
         "(tick, identifier, dlc, data) TPDO emissions of every step are compared with a reference model in ticks, plus a systematic sweep of "
         "(inhibit, event, trigger offset) in {0..6}^3 x 10 ticks (every relative order and coincidence of trigger, inhibit end and event expiry); non-trivial = history with >= 1 deferred (inhibited) transmission, event "
         "expiry or n-th-SYNC transmission; distinct by script")
@@ -227,6 +227,13 @@ def gen_world(rng, sweep=None):
             if total + w <= 8:
                 rmap.append((idx, sub, 8 * w)); total += w
         gen.add_rpdo(cfg, 0, 0x200, 255, [gen.maplink(*m) for m in rmap])
+    # RPDOs that map nothing (mostly synchronous) with the numbers of the TPDOs: switching them off and on concerns no TPDO
+    cfg.rempty = []
+    if sweep is None:
+        for num in range(4):
+            if (num > 0 or not rmap) and rng.random() < 0.6:
+                gen.add_rpdo(cfg, num, 0x200 + 0x100 * num, rng.choice([1, 1, 0, 240, 255]), [])
+                cfg.rempty.append([num, 0x200 + 0x100 * num + nid])
     cfg.finalize()
     cfg.scale = freq // 10000
     units = (cfg.scale, 10 * cfg.scale)
@@ -314,8 +321,12 @@ def run_history(res, exe, rng, first, sweep=None):
                     op = ("nmt", rng.choice([1, 1, 128, 2, 130, 1]))
                 elif x < 0.95:
                     op = ("pending", rng.choice(["preop", "stop", "invalidate", "reset"]))
-                elif x < 0.97:
+                elif x < 0.965:
                     op = ("event", rng.randrange(len(tps)), rng.choice([0, 1, 3, 10]))
+                elif x < 0.985:
+                    op = ("remap", rng.randrange(len(tps)))
+                elif x < 0.993 and cfg.rempty:
+                    op = ("rpdovalid", rng.randrange(len(cfg.rempty)))
                 else:
                     op = ("cobid", rng.randrange(len(tps)))
             m.sent_this_tick = {k: v for k, v in m.sent_this_tick.items() if v == now}
@@ -459,6 +470,52 @@ def run_history(res, exe, rng, first, sweep=None):
                     tp.E = ms * m.ev_unit
                     tp.ev_window = None
                     tp.ev_deadline = now + tp.E if tp.E > 0 else None
+            elif op[0] == "rpdovalid":
+                if m.mode == STOP:
+                    continue
+                r_ = cfg.rempty[op[1]]
+                r_[1] ^= 0x80000000
+                script.append("write 14%02x:1 = %x @%d" % (r_[0], r_[1], now))
+                code, evs = S.sdo_write(sim, nid, 0x1400 + r_[0], 1, r_[1], 4)
+                if code is not None:
+                    fail("rpdo-cobid-write-refused", "COB-ID valid toggle of RPDO%d refused: %r" % (r_[0], code)); return
+                res.counters["rpdo_switched_between_syncs"] += 1
+            elif op[0] == "remap":
+                # CiA 301 re-mapping while OPERATIONAL: invalidate, count 0, new entries, new count (mostly fewer than before), re-validate;
+                # the other TPDOs - their links to changed objects included - are not touched
+                k = op[1]
+                tp = tps[k]
+                if m.mode != OP:
+                    continue
+                cand = [(i_, s_, 8 * objs[(i_, s_)][0]) for (i_, s_) in objs if objs[(i_, s_)][0] in (1, 2, 4) and (tp.typ >= 254 or not (objs[(i_, s_)][1] & A))]
+                rng.shuffle(cand)
+                nm, tot = [], 0
+                for c_ in cand[:rng.choice([0, 1, 1, 2, max(0, len(tp.maps) - 1), len(tp.maps) + 1])]:
+                    if tot + c_[2] // 8 <= 8:
+                        nm.append(c_); tot += c_[2] // 8
+                script.append("re-map TPDO%d to %r @%d" % (k, nm, now))
+                seq = []
+                if tp.valid():
+                    seq.append((0x1800 + k, 1, tp.cobid | 0x80000000, 4))
+                seq.append((0x1A00 + k, 0, 0, 1))
+                seq += [(0x1A00 + k, j_ + 1, gen.maplink(*m_), 4) for j_, m_ in enumerate(nm)]
+                seq.append((0x1A00 + k, 0, len(nm), 1))
+                seq.append((0x1800 + k, 1, tp.cobid & 0x7FFFFFFF, 4))
+                okk = True
+                for n_, (i_, s_, v_, w_) in enumerate(seq):
+                    code, evs = S.sdo_write(sim, nid, i_, s_, v_, w_)
+                    if code is not None:
+                        fail("remap-write-refused", "write %x to %04x:%d of the re-mapping sequence refused: %r" % (v_, i_, s_, code)); return
+                    if i_ == 0x1800 + k:
+                        tp.cobid = v_
+                        if not tp.valid():
+                            m.activate(tp, now)
+                    if n_ < len(seq) - 1 and step(evs=evs) is not True:
+                        return
+                res.counters["remapped_with_fewer_objects"] += 1 if len(nm) < len(tp.maps) else 0
+                tp.maps = nm
+                m.activate(tp, now)
+                res.counters["remapped_while_operational"] += 1
             else:
                 k = op[1]
                 tp = tps[k]
@@ -554,6 +611,8 @@ def finish(total, tier):
     p = []
     if c["deferred"] < 50 or c["event"] < 200 or c["sync"] < 100:
         p.append("core mechanisms hardly exercised: %r" % dict(c))
+    if c["remapped_with_fewer_objects"] < 100 or c["rpdo_switched_between_syncs"] < 100:
+        p.append("too few re-mappings with fewer objects (%d) / RPDO switches between SYNCs (%d)" % (c["remapped_with_fewer_objects"], c["rpdo_switched_between_syncs"]))
     return p
 
 
